@@ -52,7 +52,8 @@ def generate_centroids(
         the rank of the input by 1. NaNs will be ignored in the calculation.
     """
     if anchor_ind is not None:
-        centroids = points[..., anchor_ind, :]
+        # clone: the fallback below must not write through to the caller's points
+        centroids = points[..., anchor_ind, :].clone()
     else:
         centroids = torch.full_like(points[..., 0, :], torch.nan)
 
